@@ -8,7 +8,7 @@
      without the leading one, a = 0, b = 1  (injective: [zcode_inj]; only letters; never a primitive's name, never "if..")
      {group}   \def\zq..#1..#n{body}   \gdef..   \zq..{arg1}..{argn}   #k   ##
      \newcommand{\zq..}[n+1][default]{body} (a definition with a default)   \zq..[opt]{arg1}..{argn}   \let\zq..=\zq..
-     \iftrue | \iffalse | \ifnum<decimal digits><rel><decimal digits>\relax   then-branch  [\else else-branch]  \fi
+     \iftrue | \iffalse | \ifodd<decimal digits>\relax | \ifnum<decimal digits><rel><decimal digits>\relax   then-branch  [\else else-branch]  \fi
      \ifcase<decimal digits>\relax branch0 \or branch1 ... [\else else-branch] \fi      (at least one branch) *)
 From Coq Require Import List NArith ZArith Bool.
 Import ListNotations.
@@ -21,6 +21,14 @@ Fixpoint pcode (p : positive) : list N :=
 Definition zcode (z : Z) : list N :=
   match z with Z0 => [] | Zpos p => 112 :: pcode p | Zneg p => 110 :: pcode p end.
 Definition mname (id : Z) : list N := 122 :: 113 :: zcode id.
+
+(* switches (\newif): switch n is \ifzs<code n>, set by \zs<code n>true / \zs<code n>false *)
+Definition sname (sw : Z) : list N := 122 :: 115 :: zcode sw.
+Definition ifname (sw : Z) : list N := 105 :: 102 :: sname sw.
+Definition setname (sw : Z) (b : bool) : list N := sname sw ++ (if b then s_true else s_false).
+(* names of the switch family, and the keys under which the engine keeps class attributes *)
+Definition swkey (k : list N) : bool :=
+  match k with 0 :: _ => true | 122 :: 115 :: _ => true | 105 :: 102 :: 122 :: 115 :: _ => true | _ => false end.
 
 Definition letter (c : N) : tok := Tok CC_LETTER [c].
 Definition other (c : N) : tok := Tok CC_OTHER [c].
@@ -49,6 +57,8 @@ Definition print_test (t : test) : list tok :=
   | TFalse => [esc s_iffalse]
   | TNum (OLit a) r (OLit b) =>
       esc s_ifnum :: map other (digits (Z.to_N a)) ++ rel_tok r :: map other (digits (Z.to_N b)) ++ [esc s_relax]
+  | TOdd (OLit a) => esc s_ifodd :: map other (digits (Z.to_N a)) ++ [esc s_relax]
+  | TSwitch sw => [esc (ifname sw)]
   | _ => []
   end.
 
@@ -68,6 +78,8 @@ Fixpoint print_node (n : node) : list tok :=
       esc (mname nm) :: match o with Some x => lbr :: print x ++ [rbr] | None => [] end ++
       (fix pargs (l : list (list node)) : list tok := match l with [] => [] | a :: r => bg :: print a ++ eg :: pargs r end) args
   | NLet nm tg => [esc s_let; esc (mname nm); other 61; esc (mname tg)]
+  | NNewSwitch sw => [esc s_newif; esc (ifname sw)]
+  | NSetSwitch sw b => [esc (setname sw b)]
   | NParam k => [hash_tok; other (48 + N.of_nat k)]
   | NHash => [hash_tok; hash_tok]
   | NCond t th el =>
@@ -86,6 +98,7 @@ Definition f1_test (t : test) : bool :=
   match t with
   | TTrue | TFalse => true
   | TNum (OLit a) _ (OLit b) => (0 <=? a)%Z && (0 <=? b)%Z
+  | TOdd (OLit a) => (0 <=? a)%Z
   | _ => false
   end.
 Fixpoint f1_node (n : node) : bool :=
@@ -107,6 +120,9 @@ Definition in_F1 (p : list node) : bool := forallb f1_node p.
         evaluator substitutes with fuel 50: MacroLang.subst 50)                                        [fb_node n]
      "program text" (definitions with up to 9 parameters whose bodies are bodies as above - or arguments, when n = 0 -,
         calls whose arguments are arguments)                                                           [f2_node]       ---- *)
+(* tests of F2: those of F1 and switches *)
+Definition f2_test (t : test) : bool := match t with TSwitch _ => true | _ => f1_test t end.
+
 Definition is_none {A} (o : option A) : bool := match o with None => true | Some _ => false end.
 (* optional arguments and their defaults: plain words (no bracket can hide in them) *)
 Definition is_word (x : node) : bool := match x with NWord _ => true | _ => false end.
@@ -118,18 +134,18 @@ Definition case_head (a : operand) (bs : list (list node)) : bool :=
 
 Fixpoint fa_node (x : node) : bool :=
   match x with
-  | NWord _ | NLet _ _ => true
+  | NWord _ | NLet _ _ | NNewSwitch _ | NSetSwitch _ _ => true
   | NGroup b => forallb fa_node b
   | NDef _ _ np d b => Nat.eqb np 0 && is_none d && forallb fa_node b
   | NCall _ o a => opt_ok o && forallb (forallb fa_node) a
-  | NCond t th el => f1_test t && forallb fa_node th && match el with Some e => forallb fa_node e | None => true end
+  | NCond t th el => f2_test t && forallb fa_node th && match el with Some e => forallb fa_node e | None => true end
   | NCase a bs el => case_head a bs && forallb (forallb fa_node) bs && match el with Some e => forallb fa_node e | None => true end
   | _ => false
   end.
 
 Fixpoint fb_node (n : nat) (x : node) (d : nat) {struct x} : bool :=
   match x with
-  | NWord _ | NLet _ _ => true
+  | NWord _ | NLet _ _ | NNewSwitch _ | NSetSwitch _ _ => true
   | NParam k => Nat.leb 1 k && Nat.leb k n
   | NGroup b => match d with O => false | S d' => forallb (fun y => fb_node n y d') b end
   | NDef _ _ np dflt b =>
@@ -137,7 +153,7 @@ Fixpoint fb_node (n : nat) (x : node) (d : nat) {struct x} : bool :=
   | NCall _ o a =>
       opt_ok o && forallb (fun arg => match d with O => false | S d' => forallb (fun y => fb_node n y d') arg end) a
   | NCond t th el =>
-      f1_test t &&
+      f2_test t &&
       match d with
       | O => false
       | S d' => forallb (fun y => fb_node n y d') th &&
@@ -156,7 +172,7 @@ Definition BODY_DEPTH : nat := 49.      (* MacroLang.subst is called with fuel 5
 
 Fixpoint f2_node (x : node) : bool :=
   match x with
-  | NWord _ | NLet _ _ => true
+  | NWord _ | NLet _ _ | NNewSwitch _ | NSetSwitch _ _ => true
   | NGroup b => forallb f2_node b
   | NDef g _ np d b =>
       match d with
@@ -164,7 +180,7 @@ Fixpoint f2_node (x : node) : bool :=
       | Some dd => g && Nat.leb (S np) 9 && forallb is_word dd && forallb (fun y => fb_node (S np) y BODY_DEPTH) b
       end
   | NCall _ o a => opt_ok o && forallb (forallb fa_node) a
-  | NCond t th el => f1_test t && forallb f2_node th && match el with Some e => forallb f2_node e | None => true end
+  | NCond t th el => f2_test t && forallb f2_node th && match el with Some e => forallb f2_node e | None => true end
   | NCase a bs el => case_head a bs && forallb (forallb f2_node) bs && match el with Some e => forallb f2_node e | None => true end
   | _ => false
   end.
@@ -175,7 +191,8 @@ Definition in_F2 (p : list node) : bool := forallb f2_node p.
         checks exactly that along the evaluation of the program (same recursion, same fuel and budget as [eval]).
         (\newcommand is global in plasTeX by design, hence printed for global definitions only.)
         It also checks that an optional argument [..] is only written after a macro that has one (the reference
-        evaluator ignores a superfluous one, TeX would print it). ---- *)
+        evaluator ignores a superfluous one, TeX would print it), and that a switch is declared (\newif) before it is
+        tested or set (the reference evaluator reads an undeclared switch as false; in TeX it is an undefined macro). ---- *)
 Definition unshadowed (nm : Z) (fs : list MacroLang.frame) : bool :=
   forallb (fun f => match alookup nm f with None => true | Some _ => false end) (removelast fs).
 
@@ -219,8 +236,16 @@ Fixpoint gsafe (fuel : nat) (e : env) (out : list Z) (ns : list node) : bool :=
         end
     | NCond t th el =>
         let b := if eval_test e t then th else match el with Some x => x | None => [] end in
+        (match t with TSwitch sw => match alookup sw (switches e) with Some _ => true | None => false end | _ => true end) &&
         gsafe f e out b &&
         match eval f e out b with Ok e' out' => gsafe f e' out' rest | _ => true end
+    | NSetSwitch sw b =>
+        (match alookup sw (switches e) with Some _ => true | None => false end) &&
+        gsafe f {| frames := frames e; counters := counters e; switches := aset sw b (switches e); steps := steps e |} out rest
+    | NNewSwitch sw =>
+        gsafe f {| frames := frames e; counters := counters e;
+                   switches := match alookup sw (switches e) with Some _ => switches e | None => aset sw false (switches e) end;
+                   steps := steps e |} out rest
     | NCase a bs el =>
         let z := opval e a in
         let b := if ((0 <=? z) && (z <? Z.of_nat (length bs)))%Z then nth (Z.to_nat z) bs []
